@@ -50,24 +50,25 @@ Definition sum_fixed (l : list num) : num :=
   fold_left (fun s f => if is_fixed f then a_add A s f else s) l zero.
 
 (** l.243-246 *)
-Definition scale_of (l : list num) : num :=
-  let sf := sum_fixed l in
-  if a_gt A sf one || (Nat.eqb (n_fixed l) (length l) && a_lt A sf one)
-  then a_div A one sf else one.
+Definition scale_from (nf len : nat) (sf : num) : num :=
+  if a_gt A sf one || (Nat.eqb nf len && a_lt A sf one) then a_div A one sf else one.
 
 (** l.249-252 *)
-Definition dynamic_of (l : list num) : num :=
-  let d := a_div A (a_sub A one (sum_fixed l)) (a_of_nat A (length l - n_fixed l)) in
+Definition dynamic_from (nf len : nat) (sf : num) : num :=
+  let d := a_div A (a_sub A one sf) (a_of_nat A (len - nf)) in
   if a_lt A d zero then zero else d.
 
 (** weighTargets, l.218-259: the effective weight of every target, in order.
     [l] = the FixedWeight fields of r.Targets. *)
 Definition weigh (l : list num) : list num :=
-  if Nat.eqb (n_fixed l) 0 then
-    let w := a_div A one (a_of_nat A (length l)) in map (fun _ => w) l
+  let nf := n_fixed l in
+  let len := length l in
+  if Nat.eqb nf 0 then
+    let w := a_div A one (a_of_nat A len) in map (fun _ => w) l
   else
-    let scale := scale_of l in
-    let dyn := dynamic_of l in
+    let sf := sum_fixed l in
+    let scale := scale_from nf len sf in
+    let dyn := dynamic_from nf len sf in
     map (fun f => if is_fixed f then a_mul A f scale else dyn) l.
 
 (** l.291-295: [n := int(float64(maxSlots) * t.Weight); if n == 0 && t.Weight > 0 { n = 1 }] *)
